@@ -309,4 +309,12 @@ def rule_fixed_files_keep_their_line_ends(ctx):
     rule_newline(ctx, "O13.8", (("cutplace.rowio.fixed_rows", "r"), ("cutplace.rowio.AbstractRowWriter.__init__", "w")))
 
 
-RULES = [rule_fixed_rows, rule_structure, rule_raw_rows_dispatch, rule_fixed_files_keep_their_line_ends, rule_module_state]
+def rule_any_stream_can_be_read(ctx):
+    """O13.9: "for any character stream": a stream whose name is missing, None, a file descriptor or bytes is read like any
+    other - the Reader and the location of the fixed reader's errors can be built and rendered (C04's table)."""
+    from .c04 import rule_locations_name_every_kind_of_source
+
+    rule_locations_name_every_kind_of_source(ctx, "O13.9")
+
+
+RULES = [rule_fixed_rows, rule_structure, rule_raw_rows_dispatch, rule_fixed_files_keep_their_line_ends, rule_any_stream_can_be_read, rule_module_state]
